@@ -76,8 +76,8 @@ pub fn sym_matcher(cfg: &Config) -> Matcher {
     let (ptr, len) = m.slab.verif_raw();
     #[cfg(nucleo_verif_small)]
     {
-        // small geometry: 16 chars + 16 bonus bytes + 16 row offsets + 16 score cells + 64 cells
-        const SLAB: usize = 16 * 4 + 16 + 16 * 2 + 16 * 8 + 64;
+        // small geometry: 24 chars + 24 bonus bytes + 16 row offsets + 24 score cells + 96 cells
+        const SLAB: usize = 24 * 4 + 24 + 16 * 2 + 24 * 8 + 96;
         assert!(len == SLAB);
         let pre: [u8; SLAB] = sym::bytes();
         unsafe { std::ptr::copy_nonoverlapping(pre.as_ptr(), ptr, SLAB) };
